@@ -337,6 +337,17 @@ def run(ctx):
                              {"kind": "range", "start": start, "stop": stop, "step": step, "size": None, "via": via},
                              nontrivial=step != int(step))
                     judge_range(ctx, start, stop, step if via != "time_sr" else 1 / round(1 / step), None, via)
+    # long axes that do not start at zero (a clip minutes into a recording): the increment rounding of arange has
+    # accumulated over 1e5 .. 1e6 steps by the time the end of the range is reached
+    if ctx.shard == 0 or ctx.thorough:
+        for start in [60.5, 7.3, 1000.7, 212.275, 3600.1]:
+            for step, n in [(1 / 16000, 44100), (1 / 8000, 1000000), (0.001, 157248), (1 / 44100, 441000), (1 / 8000, 157248)]:
+                if ctx.thorough and rng.random() < 0.5:
+                    continue
+                stop = start + n * step
+                via = rng.choice(["range", "time", "freq"])
+                ctx.case(("range", via, "long_far_from_zero"), {"kind": "range", "start": start, "stop": stop, "step": step, "size": None, "via": via}, nontrivial=True)
+                judge_range(ctx, start, stop, step, None, via)
     for _ in range(ctx.scale(300, 1500)):
         start = rng.choice(STARTS + [rng.uniform(0, 100)])
         size = rng.choice([1, 2, 3, 10, 127, 128, 1000, rng.randint(1, 3000)])
